@@ -540,6 +540,11 @@ class Check:
     def sample(self, s, limit=6):
         if len(self.samples) < limit: self.samples.append(s)
     def violation(self, what, replay):
+        if len(self.violations) >= 100:      # enough replay files; the rest is only counted
+            self.violations.append((what, self.violations[-1][1]))
+            if len(self.violations) == 101:
+                print("  (further violations of this run are counted, not listed)", flush=True)
+            return
         path = save_replay(self.pid, replay)
         self.violations.append((what, path))
         print("VIOLATION property=%s replay=%s" % (self.pid, path), flush=True)
